@@ -70,24 +70,46 @@ pub fn file_events(out: &str, cfg: &MmCfg, evs: &mut Vec<Value>) {
 }
 
 fn reset_event(cfg: &MmCfg, mode: &str) -> Value {
-    json!({"ev":"reset","mode":mode,"n":cfg.n,"kc":kcount(cfg.k),"dl":cfg.delim.len(),"hdr": if cfg.header {1} else {0},"ksz":cfg.k,"nw":cfg.threads})
+    json!({"ev":"reset","mode":mode,"n":cfg.n,"kc":kcount(cfg.k),"dl":cfg.delim.len(),"hdr": if cfg.header {1} else {0},"ksz":cfg.k,"nw":cfg.threads,
+           "norows": if mode == "free-any" {1} else {0}})
 }
 
 /// free-running mmap run; returns the events (reset, hook events, decoded file)
-pub fn free_run(cfg: &MmCfg, dir: &str, rng: &mut Rng, perturb: Option<u64>) -> Vec<Value> {
+pub fn free_run(cfg: &MmCfg, dir: &str, rng: &mut Rng, perturb: Option<u64>, any: bool) -> Vec<Value> {
     let inp = format!("{}/mm_in.fa", dir);
     let out = format!("{}/mm_out.txt", dir);
-    write_fasta(&inp, &coded_records(cfg.n, cfg.k, rng));
+    if any {
+        // arbitrary records: empty, shorter than k, ambiguous bytes (no ordinal coding, so no row events; the write log,
+        // file size and NUL count are what is judged)
+        let seqs: Vec<Vec<u8>> = (0..cfg.n)
+            .map(|j| {
+                let len = match j % 4 {
+                    1 => 0,
+                    2 => rng.below(cfg.k as u64 + 1) as usize,
+                    _ => rng.range(0, 80) as usize,
+                };
+                crate::gen::gen_seq(rng, len, false)
+            })
+            .collect();
+        write_fasta(&inp, &seqs);
+    } else {
+        write_fasta(&inp, &coded_records(cfg.n, cfg.k, rng));
+    }
     let _ = std::fs::remove_file(&out);
     let rec = Recorder::free(perturb);
     rec.reset_tasks();
     rec.install();
     let res = std::panic::catch_unwind(|| run_oligo(&inp, &out, cfg.k, true, WPath::Mmap, cfg.threads, &cfg.delim, cfg.header, None));
     Recorder::uninstall();
-    let mut evs = vec![reset_event(cfg, "free")];
+    let mut evs = vec![reset_event(cfg, if any { "free-any" } else { "free" })];
     evs.extend(rec.take_log().iter().map(ev_json));
     match res {
-        Ok(Ok(())) => file_events(&out, cfg, &mut evs),
+        Ok(Ok(())) => {
+            file_events(&out, cfg, &mut evs);
+            if any {
+                evs.retain(|e| e["ev"] != "row");
+            }
+        }
         Ok(Err(e)) => evs.push(json!({"ev":"error","what":e})),
         Err(_) => evs.push(json!({"ev":"crash","kind":"panic"})),
     }
@@ -238,7 +260,7 @@ pub fn free(seed: u64, runs: usize, dir: &str, maxn: usize) {
             threads: 1 + rng.below(16) as usize,
         };
         let perturb = if i % 2 == 0 { Some(rng.next()) } else { None };
-        for e in free_run(&cfg, dir, &mut rng, perturb) {
+        for e in free_run(&cfg, dir, &mut rng, perturb, i % 4 == 3) {
             println!("{}", e);
         }
     }
